@@ -312,6 +312,37 @@ theorem adapt_changes_nothing (env : Env) (r : Req) (s : State) (hp : r.path = a
   rw [hp, hr]
   exact handleAdapt_pure env r s
 
+/-! ### unchanged configurations, forced reloads -/
+
+/-- **an unchanged configuration is not reloaded** — unless the client forces it: when the
+    mutation leaves the document equal to the last loaded one and `Cache-Control:
+    must-revalidate` is absent, `changeConfig` returns errSameConfig (answered 200): the apps
+    are not restarted, the index and `rawCfgJSON` are untouched, and the tree GET reads from is
+    the mutated one, i.e. still that document. -/
+theorem unchanged_config_is_not_reloaded (env : Env) (s : State) (root : Json)
+    (hsame : s.rawCfgJSON = some (cfgOf root)) :
+    commit env false s root = ({ s with rawCfg := root }, .same) := by
+  simp [commit, hsame]
+
+/-- **a forced reload reloads**: with `Cache-Control: must-revalidate` the same situation goes
+    through index, run and commit; if the apps accept, they are started once more with the
+    same (stripped) document; if they reject, everything is restored. -/
+theorem forced_reload_reloads (env : Env) (s : State) (root : Json) :
+    ((commit env true s root).2 = .ok ∧ (commit env true s root).1.loads = s.loads + 1 ∧
+      (commit env true s root).1.running = some (stripIds (cfgOf root)) ∧
+      (commit env true s root).1.rawCfgJSON = some (cfgOf root)) ∨
+    (((commit env true s root).2 = .index ∨ (commit env true s root).2 = .load) ∧
+      (commit env true s root).1 = restore s root) := by
+  unfold commit
+  simp only [Bool.not_true, Bool.false_and, Bool.false_eq_true, if_false]
+  cases indexJ (cfgOf root) (slash :: cfgKey) with
+  | none => exact Or.inr ⟨Or.inl rfl, rfl⟩
+  | some idx =>
+    simp only
+    split
+    · exact Or.inr ⟨Or.inr rfl, rfl⟩
+    · exact Or.inl ⟨rfl, rfl, rfl, rfl⟩
+
 /-! ### the representation invariant of Go maps -/
 
 /-- histories whose request bodies are trees without duplicate object keys — which is what
@@ -442,6 +473,63 @@ theorem id_resolves_partial {env : Env} {s : State} (h : Reachable env s) (hkey 
     simp only [readReq, hrid, hto, hrcfg, idPath]
     rw [handleConfig_get _ _ _ _ rfl, hroot, hget]
     simp
+
+/-- **/id/<id>/<rest> is <expanded path>/<rest>, for every kind of request.** After any
+    history, for a uniquely tagged object at an addressable position `segs` and any addressable
+    rest of the path: a request to `/id/<id>/<rest>` — whatever its method, body, If-Match,
+    Cache-Control and Content-Type — is answered exactly like the same request to
+    `/config/<segs>/<rest>` and leaves exactly the same state. (With `rest = []` and GET this
+    is `id_resolves_partial`; here the object may also be written, deleted or appended to
+    through its id.) -/
+theorem id_path_is_expanded_path {env : Env} {s : State} (h : Reachable env s) {j : Json}
+    (hj : s.rawCfgJSON = some j) {segs rest : List Bytes} {t : Bytes}
+    (hsegs : okSegs segs) (hid : okSegs (idSeg :: t :: rest)) (hne : segs ++ rest ≠ [])
+    (huniq : (taggedJ j).filter (fun e => e.2 = t) = [(segs, t)])
+    (r : Req) (hp : r.path = renderPath (idSeg :: t :: rest)) :
+    serve env r s = serve env { r with path := renderPath (cfgKey :: (segs ++ rest)) } s := by
+  have hi := reachable_inv h
+  have hidx : s.index = (taggedJ j).map (entryOf (slash :: cfgKey)) := by
+    have := hi.idx
+    rw [hj] at this
+    exact indexJ_tagged j _ _ this
+  have hokc : okSegs (cfgKey :: segs) := by
+    intro x hx; simp at hx; rcases hx with hx | hx
+    · rw [hx]; exact okSeg_cfgKey
+    · exact hsegs x hx
+  have hbase : (slash :: cfgKey : Bytes) = renderPath [cfgKey] := by simp [renderPath]
+  have hfold : segs.foldl pathJoin (slash :: cfgKey) = renderPath (cfgKey :: segs) := by
+    rw [hbase, foldl_pathJoin_ok (base := [cfgKey]) (by intro x hx; simp at hx; rw [hx]; exact okSeg_cfgKey) (by simp) hsegs]
+    simp
+  have hcand : candidates t s.index = [renderPath (cfgKey :: segs)] := by
+    rw [hidx, candidates_map, huniq]
+    simp [hfold]
+  have hrest : okSegs rest := fun x hx => hid x (by simp [hx])
+  have hto := handleConfigID_rest (idx := s.index) hid hcand hokc (by simp)
+  obtain ⟨s0, tl, hst⟩ : ∃ s0 tl, segs ++ rest = s0 :: tl := by
+    cases hs : segs ++ rest with
+    | nil => exact absurd hs hne
+    | cons a b => exact ⟨a, b, rfl⟩
+  have hall : okSegs (cfgKey :: s0 :: tl) := by
+    rw [← hst]
+    intro x hx; simp at hx
+    rcases hx with hx | hx | hx
+    · rw [hx]; exact okSeg_cfgKey
+    · exact hsegs x hx
+    · exact hrest x hx
+  have hpath : renderPath (cfgKey :: segs ++ rest) = renderPath (cfgKey :: s0 :: tl) := by
+    simp only [List.cons_append, hst]
+  rw [hpath, rootSlash_below] at hto
+  have hrcfg := route_render_config hall
+  have hrid := route_render_id_rest hid
+  have hlhs : serve env r s = handleConfig env r (renderPath (cfgKey :: s0 :: tl)) s := by
+    unfold serve
+    simp only [hp, hrid, hto, hrcfg]
+  have hrhs : serve env { r with path := renderPath (cfgKey :: (segs ++ rest)) } s =
+      handleConfig env r (renderPath (cfgKey :: s0 :: tl)) s := by
+    unfold serve
+    simp only [hst, hrcfg]
+    exact handleConfig_path_irrelevant env r _ _ s
+  rw [hlhs, hrhs]
 
 /-! ### `@id` never changes what the configuration means -/
 
@@ -630,5 +718,16 @@ example : adaptUK loadEnv := by
     simp [this, kApps, kC12]
   | empty => simp [loadEnv, wrapEx] at h
   | bad => simp [loadEnv, wrapEx] at h
+
+-- id_path_is_expanded_path: PATCH /id/x/a/0 on the loaded example document is PATCH /config/apps/c12/a/0
+def pIdXA0 : Bytes := [47, 105, 100, 47, 120, 47, 97, 47, 48]     -- "/id/x/a/0"
+example : pIdXA0 = renderPath (idSeg :: kX :: [kA, [48]]) := by decide
+example : (taggedJ exDoc).filter (fun e => e.2 = kX) = [([kApps, kC12], kX)] := by decide
+example : serve exEnv (exReq .patch pIdXA0 (.val .null)) exLoaded = serve exEnv (exReq .patch pA0 (.val .null)) exLoaded := by decide
+example : (serve exEnv (exReq .patch pIdXA0 (.val .null)) exLoaded).2 = .okWrite := by decide
+
+-- unchanged / forced: PATCHing the loaded document with itself
+example : (serve exEnv (exReq .patch pRoot (.val exDoc)) exLoaded) = (exLoaded, .okWrite) := by decide
+example : (serve exEnv ⟨.patch, pRoot, .val exDoc, [], true, .json⟩ exLoaded).1.loads = 2 := by decide
 
 end CaddyModel.C12
